@@ -132,6 +132,8 @@ func main() {
 		lap("ecdsa")
 		runSchnorr(r, mult)
 		lap("schnorr")
+		runBatch(r, mult)
+		lap("batch")
 		runBls(r, mult)
 		lap("bls")
 	}
@@ -161,6 +163,8 @@ func replay(r *run, path string) {
 		c := strings.TrimSpace(strings.TrimPrefix(l, "case: "))
 		f := strings.Split(c, ":")
 		switch f[0] {
+		case "bip340batch", "minabatch", "schnorrbatch":
+			replayBatch(r, f)
 		case "ecdsawire":
 			kxy := func(x, y *big.Int) (*k256.Point, error) {
 				return k256.NewCurve().FromUncompressed(append(append([]byte{4}, x.FillBytes(make([]byte, 32))...), y.FillBytes(make([]byte, 32))...))
